@@ -228,6 +228,7 @@ fn directed_prog(ctx: &mut Ctx, which: usize) -> Prog {
         }
         11 => { // the greedy why-not witness shape: g(X) <- e(X,Y), f(Y)
             shape = "join-then-filter";
+            if ctx.chance(3, 4) { items.insert(0, fact("f", &[3])); items.insert(0, fact("e", &[1, 3])); items.insert(0, fact("e", &[1, 2])); }
             items.push(rule(atom("g", vec![x.clone()]), vec![pos("e", vec![x.clone(), y.clone()]), pos("f", vec![y.clone()])]));
             idb = vec![("g".into(), 1)];
         }
